@@ -127,6 +127,12 @@ ClearOutcomes(c) ==
       [] c.kind = "hybrid" -> {<<[c EXCEPT !.val = Empty, !.cnt = Empty, !.dur = Empty], NoneV>>}
       [] c.kind = "disk"   -> {<<[c EXCEPT !.files = <<>>, !.val = Empty, !.front = LruNew], NoneV>>}
 
+(* ANOTHER DiskCache object on the same directory clears it (a second pipeline, another session): the files are gone; *)
+(* this object cannot know, its in-memory front keeps serving what it holds (a deliberate property of the code: the   *)
+(* front is only coherent with the directory as long as this object is the one that changes it).  Its own clear()      *)
+(* afterwards still empties it completely.                                                                            *)
+WipeOutcomes(c) == {<<[c EXCEPT !.files = <<>>, !.val = Empty], NoneV>>}
+
 (* re-open a DiskCache on the same directory with another max_size (a new object: empty front) *)
 ReopenOutcomes(c, max, lsize) == {<<[c EXCEPT !.max = max, !.lsize = lsize, !.front = LruNew], NoneV>>}
 
@@ -138,6 +144,7 @@ Outcomes(c, o) ==
       [] o.op = "in"     -> {<<c, IF Present(c, o.k) THEN 1 ELSE 0>>}
       [] o.op = "len"    -> {<<c, Size(c)>>}
       [] o.op = "reopen" -> ReopenOutcomes(c, o.max, o.lsize)
+      [] o.op = "wipe"   -> WipeOutcomes(c)
 
 ---------------------------------------------------------------------------
 (* What the public API lets one observe without perturbing the container. *)
